@@ -2255,6 +2255,22 @@ impl Scenario for ExitContract {
         let cap = rng.range(1, 12);
         specs.push(mk(&s(&["-e", &cap.to_string()]), &mut rng));
         kinds.push(format!("cap:{cap}"));
+        // the check once more behind an output destination that is accepted and ignored, with the filter it requires
+        if !missing && matches!(class, "clean" | "errors") && !st.links.is_empty() {
+            let l = &st.links[rng.usize_below(st.links.len())];
+            let f = if stave { Filter::Stave(l.fee_id) } else { Filter::Link(l.link_id) };
+            let mut p = s(&["-o", if rng.chance(1, 2) { "stdout" } else { "@OUT@" }]);
+            p.extend(f.args());
+            p.extend(parts.iter().cloned());
+            let mut sp = specgen::spec(im.clone(), &p, input.clone());
+            sp.custom_checks_toml = checks_toml.clone();
+            sp.stats_ext = ext.to_string();
+            if rng.chance(4, 5) {
+                swarm_schedule(&mut sp, &mut rng, 300 + st.total_packets() as u64 * 12);
+            }
+            specs.push(sp);
+            kinds.push("ignored-output-option".to_string());
+        }
         // error-code filter and cap together
         {
             let l = *rng.pick(&lists);
